@@ -174,6 +174,15 @@ func (p *Program) muSpec(withDirty bool) *LockSpec {
 						return []*Access{{Loc: "Server.aofdirty.Store", Write: true, Pos: x.Pos(), Desc: exprStr(x.Fun) + "(" + exprsStr(x.Args) + ")", Node: x}}
 					}
 				}
+				// a local that holds the value of a guarded file handle (f := s.aof): a method call through
+				// the alias is an access to the same file — writing the log through an alias after the lock
+				// was released is still a write of the log
+				if id, ok := ast.Unparen(se.X).(*ast.Ident); ok {
+					if loc := p.guardedFileAlias(u, d, id); loc != "" {
+						m := se.Sel.Name
+						return []*Access{{Loc: loc, Write: !fileReaders[m], Pos: x.Pos(), Desc: exprStr(x.Fun) + "() [" + id.Name + " holds " + loc + "]", Node: x}}
+					}
+				}
 				// any Collection method, whatever the provenance of the value
 				if f := callee(info, x); f != nil && isMethod(f, colPath, "Collection", f.Name()) {
 					return []*Access{{Loc: "Collection", Write: d.colMut[f], Pos: x.Pos(), Desc: exprStr(x.Fun) + "()", Node: x}}
@@ -207,4 +216,64 @@ func exprsStr(es []ast.Expr) string {
 		s = append(s, exprStr(e))
 	}
 	return strings.Join(s, ", ")
+}
+
+// guardedFileAlias: the identifier is a local variable of type *os.File all of whose definitions in the
+// enclosing declared function read one guarded field (f := s.aof; buf, f := s.aofbuf, s.aof); returns that
+// field's location name, or "".
+func (p *Program) guardedFileAlias(u *Unit, d *muSpecData, id *ast.Ident) string {
+	info := u.Info()
+	v, ok := info.ObjectOf(id).(*types.Var)
+	if !ok || v.IsField() || v.Pkg() == nil || v.Parent() == v.Pkg().Scope() {
+		return ""
+	}
+	tn := namedOf(v.Type())
+	if tn == nil || tn.Obj().Pkg() == nil || tn.Obj().Pkg().Path() != "os" || tn.Obj().Name() != "File" {
+		return ""
+	}
+	loc, defs, bad := "", 0, false
+	ast.Inspect(u.Fn.Decl, func(n ast.Node) bool {
+		switch s := n.(type) {
+		case *ast.AssignStmt:
+			for i, l := range s.Lhs {
+				lid, ok := ast.Unparen(l).(*ast.Ident)
+				if !ok || info.ObjectOf(lid) != v {
+					continue
+				}
+				defs++
+				if len(s.Lhs) != len(s.Rhs) {
+					bad = true
+					continue
+				}
+				fv := selField(info, s.Rhs[i])
+				if fv == nil || d.guarded[fv] == "" || (loc != "" && loc != d.guarded[fv]) {
+					bad = true
+					continue
+				}
+				loc = d.guarded[fv]
+			}
+		case *ast.ValueSpec:
+			for i, nm := range s.Names {
+				if info.ObjectOf(nm) != v {
+					continue
+				}
+				defs++
+				if i >= len(s.Values) {
+					bad = true
+					continue
+				}
+				fv := selField(info, s.Values[i])
+				if fv == nil || d.guarded[fv] == "" {
+					bad = true
+					continue
+				}
+				loc = d.guarded[fv]
+			}
+		}
+		return true
+	})
+	if defs == 0 || bad {
+		return ""
+	}
+	return loc
 }
